@@ -615,6 +615,12 @@ func (ex *Exec) evalObs(v Value, m Model) string {
 }
 
 // obligation checks that cond holds on every input of the current path.
+func (ex *Exec) obligationMsg(cond *Term, label, kind string, pos token.Pos, msg string) {
+	ex.oblMsg = msg
+	ex.obligation(cond, label, kind, pos)
+	ex.oblMsg = ""
+}
+
 func (ex *Exec) obligation(cond *Term, label, kind string, pos token.Pos) {
 	j := ex.job
 	if kind == "assert" {
@@ -645,7 +651,11 @@ func (ex *Exec) obligation(cond *Term, label, kind string, pos token.Pos) {
 			o.Discharged++
 		case Sat:
 			if o.Violation == nil {
-				o.Violation = ex.snapshot(label, kind, "assertion can fail", m, pos)
+				msg := "assertion can fail"
+				if ex.oblMsg != "" {
+					msg = ex.oblMsg
+				}
+				o.Violation = ex.snapshot(label, kind, msg, m, pos)
 			}
 		default:
 			if len(o.Inconclusive) < 5 {
